@@ -7,8 +7,13 @@ import numpy as np
 import sysgen
 from common import Cmat, Cx, R, Rmat, cfl, fl, flmat, max_rel_err
 
-LEAN_MODULES = ["PyomaVerif.Props.C01"]
+from common import wiring_pre_build as pre_build  # noqa: E402,F401
+
+LEAN_MODULES = ["PyomaVerif.Props.C01", "PyomaVerif.Props.WiringRun"]
 THEOREMS = [
+    # call-site wiring of the class layer, regenerated from /repo on every run (translate_wiring.py)
+    "PV.WiringRun.C12_run_build_hank",
+    "PV.WiringRun.C01_run_realisation",
     "PV.rank_factor_unique",
     "PV.realisation_similar",
     "PV.eig_transfer",
